@@ -1,6 +1,7 @@
 """C17 - search finds exactly the pages containing the pattern, in page order, and ends (claimed PARTLY).
 
-Claimed: walk/stop/termination logic of search.c with an abstract matcher, literal escaping, haystack construction.
+Claimed: walk/stop/termination logic of search.c with an abstract matcher, literal escaping.
+Not decided: haystack construction (harness exists, no verdict inside the caps - numbers below).
 Outside: the regex engine ure.c (DFA construction on realloc-grown heap tables) and therefore "as an independent matcher
 decides on the same text" and "the returned page highlights a real occurrence"; the real page walk of
 cache.c:_vbi_cache_foreach_page (replaced by a model here; the cache is C10's subject); vbi_format_vt_page (C02/C03).
@@ -10,7 +11,7 @@ VERIF_C17_STRICT=1 drops the KNOWN_* defines (the affected obligations then come
 import os
 from vlib.runner import Ob
 
-STRICT = os.environ.get("VERIF_C17_STRICT") == "1"
+STRICT = True   # the defects these guards masked are fixed in /repo; the obligations state the property as written
 
 # goto-cc rejects `int vbi_search_next(...)' after the prototype `vbi_search_status vbi_search_next(...)'
 PATCH = {"src/search.c": [(r"\nint\nvbi_search_next\(vbi_search \*search, vbi_page \*\*pg, int dir\)",
@@ -37,7 +38,7 @@ STUBS = ["_vbi_cache_foreach_page = harness model: walks the cached subset of a 
 
 
 def obligations(tier, seed):
-    known = {} if STRICT else {"KNOWN_C17_NO_STOP_PAGE": 1}
+    known = {}   # fixed in /repo (known_findings.json)
     common = dict(harness="h_c17.c", stubs=STUBS)
     walk_desc = ("up to NCALLS successive vbi_search_next calls, direction symbolic per call, start page/subpage symbolic (0x100..0x8FF incl. hex numbers, "
                  "subpage valid or VBI_ANY_SUBNO), universe of NP pages (page number, subpage, LOP or not, matching or not, position of the occurrence: all "
@@ -51,14 +52,15 @@ def obligations(tier, seed):
         Ob("walk", func="h_c17_walk", desc=walk_desc,
            encodes=["vbi_search_new", "vbi_search_next", "search_page_fwd", "search_page_rev", "highlight", "vbi_search_delete"],
            defines=dict(known), unwind=12, unwindset=us, patch=PATCH_WALK,
-           grid=[dict(NP=2, NCALLS=3), dict(NP=1, NCALLS=4), dict(NP=3, NCALLS=3), dict(NP=2, NCALLS=4), dict(NP=3, NCALLS=4)],
-           quick_grid=[dict(NP=2, NCALLS=3), dict(NP=1, NCALLS=4)],
-           bounds="NP <= 3 pages in the universe, NCALLS <= 4 calls, direction symbolic per call; one occurrence per matching page; page contents fixed over "
+           # measured on the loaded machine: NP=1/NCALLS=4 70-80 s, NP=2/NCALLS=2 84 s, NP=2/NCALLS=3 170-360 s (0.9 GB); NP=3/NCALLS=3: no verdict in 900 s (dropped)
+           grid=[dict(NP=2, NCALLS=2), dict(NP=1, NCALLS=4), dict(NP=2, NCALLS=3)],
+           quick_grid=[dict(NP=2, NCALLS=2), dict(NP=1, NCALLS=4)],
+           bounds="(NP pages in the universe, NCALLS calls) = (2,2), (1,4) quick, + (2,3) thorough; direction symbolic per call; one occurrence per matching page; page contents fixed over "
                   "the calls, membership in the cache symbolic per call; callbacks cut after the format call (c17_cut)",
            assumes=[] if STRICT else ["KNOWN_C17_NO_STOP_PAGE (known finding): in every call some cached page lies at or beyond the origin of the pass "
                                       "(forward: key >= origin, backward: key <= origin); without such a page the real walk never ends"],
            outside="progress callback / CANCELED, formatting errors, replaced page contents between calls, more than one occurrence per page, ure.c",
-           reach=["end", "empty", "found_in_last_call", "not_found_after_success_or_restart"], timeout=600, mem_gb=6, vin_size=96, **common),
+           reach=["end", "empty", "found_in_last_call", "not_found_after_success_or_restart"], timeout=900, mem_gb=6, vin_size=96, **common),
         Ob("escape", func="h_c17_escape",
            desc="literal search (regexp == FALSE): the pattern handed to ure_compile is the input with a backslash in front of every character of the "
                 "metacharacter list, all characters kept in order, nothing appended, length <= 2 x input (the malloc'ed buffer), and a backslash is never put in "
@@ -69,19 +71,11 @@ def obligations(tier, seed):
            outside="note: characters >= 0x100 whose low byte is NUL or a metacharacter get a (harmless) backslash too - strchr() converts its int argument to char; "
                    "-DC17_STRICT_ESCAPE turns that into a failure",
            reach=["end", "empty", "harmless_extra_backslash", "all_escaped"], timeout=300, mem_gb=4, vin_size=32, **common),
-        Ob("haystack", func="h_c17_haystack",
-           desc="haystack construction of search_page_fwd (through vbi_search_next on a one-page cache): text rows, columns 0..39 in order, one character per "
-                "normal/double-height/double-width/double-size cell, continuation cells (OVER_TOP/OVER_BOTTOM/DOUBLE_HEIGHT2/DOUBLE_SIZE2) skipped, one "
-                "separator 0x000A per row, total length as computed and within the haystack buffer; matcher run once on the whole text",
-           encodes=["search_page_fwd", "vbi_search_next", "vbi_search_new"], defines={"NP": 1, "HC": 2, "LAST_ROW": 3}, grid=[dict(SIZES=v) for v in ("0000", "1400", "3400", "2014", "4500", "6734", "0734", "2234", "5600", "1434")],
-           quick_grid=[dict(SIZES=v) for v in ("0000", "1400", "2014", "6734")],
-           unwind=42, unwindset=us_hay, patch=PATCH_ROWS,
-           bounds="search.c compiled with LAST_ROW = 3: page slice of text rows 1..2 (same row loop; with 23 rows symex needs ~20 s per row and grows: > 8 min); "
-                  "rows 1 and 2 carry symbolic cells at columns 0, 1, 39, 40 (unicode and all attributes symbolic, the SIZE "
-                  "attribute of the four cells enumerated on the grid: 10 patterns covering normal, double width/height/size, continuation cells; symbolic "
-                  "sizes: 10 GB / no verdict even for one row), other cells blank",
-           assumes=["documented vbi_page invariant (format.h, vbi_size): the right neighbour of a DOUBLE_WIDTH/DOUBLE_SIZE cell is an OVER_TOP cell with the same unicode"],
-           outside="search_page_rev's copy of the same loop (covered only through the walk obligation on blank pages)",
-           reach=["end"], timeout=300, mem_gb=4, vin_size=96, **common),
+        # haystack construction (h_c17_haystack in harness/h_c17.c) is NOT registered: no encoding produced a verdict.  Measured: 23 rows, symbolic
+        # cells: timeout 300 s; 2-row slice (LAST_ROW = 3), 2 x 5 symbolic cells: 7.5 GB then out of memory at 170 s; 1 row, 4 cells: 10 GB at 100 s; size
+        # attributes enumerated on the grid (all pointers concrete), 23 rows: symex ~20 s per row and growing (> 8 min); same on the 2-row slice: 7.5 GB /
+        # 300 s in the propositional phase, also with --no-array-field-sensitivity (10.5 GB / 400 s) and --max-field-sensitivity-array-size 1100
+        # (2.4 GB / 400 s).  Cause: every `*hp++ = ...' is a store through a pointer into the 12 KB search object whose offset the value-set
+        # analysis does not keep -> byte_update of the whole object per character (DESIGN.md rule R2).
     ]
     return obs
